@@ -224,7 +224,7 @@ fn judge_grid(case: &Case, l: &mut Local) {
     // the units of the coordinates do not matter: the same disk in microns or kilometres flattens to the
     // same shape (only on the unposed, unrelabelled member of each family)
     if let (Some(base), 0, 0) = (&uv, case.pose, case.relabel) {
-        for sc in [1e-6, 1e-3, 1e3] {
+        for sc in [2e-9, 1e-6, 1e-3, 1e3] {
             l.eval();
             let vs: Vec<Point3> = v1.iter().map(|q| Point3::from(q.coords * sc)).collect();
             l.bucket("same disk at another scale");
